@@ -112,6 +112,25 @@ func involvesEnumHelper(v ssa.Value, d int) bool {
 		if x.Common().IsInvoke() {
 			return false
 		}
+		if isAddrEmptyCall(x) {
+			// the emptiness of an address kept in a field of a plan record
+			recOf := func(t types.Type) bool {
+				if p, ok := t.Underlying().(*types.Pointer); ok {
+					t = p.Elem()
+				}
+				n, ok := t.(*types.Named)
+				return ok && n.Obj().Pkg() != nil && isIrismodPath(n.Obj().Pkg().Path()) && !n.Obj().Exported()
+			}
+			switch a := x.Common().Args[0].(type) {
+			case *ssa.Field:
+				return recOf(a.X.Type())
+			case *ssa.UnOp:
+				if fa, ok := a.X.(*ssa.FieldAddr); ok && a.Op == token.MUL {
+					return recOf(fa.X.Type())
+				}
+			}
+			return false
+		}
 		g := x.Common().StaticCallee()
 		if g == nil || g.Blocks == nil || !isIrismodFunc(g) {
 			return false
@@ -143,10 +162,17 @@ func (w *Walker) constAlts(fr *Frame, v ssa.Value, depth int) ([]constAlt, bool)
 				{facts: factMap(withEquivalents([]FactT{{Text: t, Holds: false}})), val: constant.MakeBool(false)},
 			}, true
 		}
+		if w.symOK {
+			// a value that is not a small constant: named by its term
+			return []constAlt{{facts: map[string]FactT{}, val: constant.MakeString("sym:" + w.ts.Of(v, fr).LooseString())}}, true
+		}
 		return nil, false
 	}
 	switch x := v.(type) {
 	case *ssa.Const:
+		if x.Value == nil && w.symOK && !isSmallConstType(x.Type()) {
+			return []constAlt{{facts: map[string]FactT{}, val: constant.MakeInt64(0)}}, true // nil / zero
+		}
 		if x.Value == nil {
 			if isSmallConstType(x.Type()) {
 				if b := x.Type().Underlying().(*types.Basic); b.Info()&types.IsBoolean != 0 {
@@ -163,7 +189,7 @@ func (w *Walker) constAlts(fr *Frame, v ssa.Value, depth int) ([]constAlt, bool)
 	case *ssa.ChangeType:
 		return w.constAlts(fr, x.X, depth+1)
 	case *ssa.Convert:
-		if !isSmallConstType(x.Type()) || !isSmallConstType(x.X.Type()) {
+		if (!isSmallConstType(x.Type()) || !isSmallConstType(x.X.Type())) && !w.symOK {
 			return nil, false
 		}
 		return w.constAlts(fr, x.X, depth+1)
@@ -303,11 +329,47 @@ func (w *Walker) constAlts(fr *Frame, v ssa.Value, depth int) ([]constAlt, bool)
 		if call == nil || call.Common().IsInvoke() {
 			return leaf()
 		}
+		// addr.Empty() of an address kept in a record field: nil where no address was put in;
+		// the result of a bech32 decoding is empty exactly when the decoding failed
+		if isAddrEmptyCall(call) {
+			old := w.symOK
+			w.symOK = true
+			as, ok := w.constAlts(fr, call.Common().Args[0], depth+1)
+			w.symOK = old
+			if !ok {
+				return leaf()
+			}
+			var out []constAlt
+			for _, al := range as {
+				switch {
+				case al.val.Kind() == constant.Int:
+					out = append(out, constAlt{al.facts, constant.MakeBool(true)})
+				case al.val.Kind() == constant.String && strings.HasPrefix(constant.StringVal(al.val), "sym:addr(") && strings.HasSuffix(constant.StringVal(al.val), ")"):
+					x := strings.TrimSuffix(strings.TrimPrefix(constant.StringVal(al.val), "sym:addr("), ")")
+					for _, empty := range []bool{false, true} {
+						fs := withEquivalents([]FactT{{Text: "(addrerr(" + x + ") != nil)", Holds: empty}})
+						if m, feasible := mergeFacts(al.facts, factMap(fs)); feasible {
+							out = append(out, constAlt{m, constant.MakeBool(empty)})
+						}
+					}
+				case al.val.Kind() == constant.String:
+					t := "sdk.AccAddress.Empty(" + strings.TrimPrefix(constant.StringVal(al.val), "sym:") + ")"
+					for _, empty := range []bool{false, true} {
+						if m, feasible := mergeFacts(al.facts, factMap(withEquivalents([]FactT{{Text: t, Holds: empty}}))); feasible {
+							out = append(out, constAlt{m, constant.MakeBool(empty)})
+						}
+					}
+				default:
+					return leaf()
+				}
+			}
+			return out, len(out) > 0
+		}
 		g := call.Common().StaticCallee()
 		if g == nil || g.Blocks == nil || !isIrismodFunc(g) || onChain(fr, g) || len(g.Blocks) > 24 {
 			return leaf()
 		}
-		if idx >= g.Signature.Results().Len() || !isSmallConstType(g.Signature.Results().At(idx).Type()) {
+		if idx >= g.Signature.Results().Len() || (!isSmallConstType(g.Signature.Results().At(idx).Type()) && !w.symOK) {
 			return leaf()
 		}
 		nfr := &Frame{Fn: g, Parent: fr, Call: call, Depth: frameDepth(fr) + 1}
@@ -729,7 +791,7 @@ func (w *Walker) allocFieldAlts(fr *Frame, a *ssa.Alloc, idx int, at ssa.Instruc
 			}
 			t = st.Field(idx).Type()
 		}
-		if t == nil || !isSmallConstType(t) {
+		if t == nil || (!isSmallConstType(t) && !w.symOK) {
 			return nil, false
 		}
 		// a non-definite writer (a callee that may leave the field alone) lets the previous
@@ -1325,6 +1387,111 @@ func (w *Walker) mustPassPerKind(fr *Frame, pred func(ssa.Instruction) bool) boo
 			return true
 		}
 		if !mustPass(fr.Fn, pred) {
+			return false
+		}
+	}
+	return true
+}
+
+func isAddrEmptyCall(c *ssa.Call) bool {
+	if c.Common().IsInvoke() || len(c.Common().Args) != 1 {
+		return false
+	}
+	pkg, name := calleeName(c.Common())
+	return pkg == "github.com/cosmos/cosmos-sdk/types" && name == "AccAddress.Empty"
+}
+
+// mustPassPerAlternatives: the function of frame fr branches on several computed flags (the
+// fields of a plan record). Every consistent combination of their alternatives on this chain
+// decides the tests; for each, every path to a success exit must pass pred.
+func (w *Walker) mustPassPerAlternatives(fr *Frame, pred func(ssa.Instruction) bool) bool {
+	var conds []ssa.Value
+	var alts [][]constAlt
+	for _, blk := range fr.Fn.Blocks {
+		ifi, ok := blk.Instrs[len(blk.Instrs)-1].(*ssa.If)
+		if !ok {
+			continue
+		}
+		for _, f0 := range expandCond(ifi.Cond, true, ifi) {
+			if !involvesEnumHelper(f0.Cond, 0) {
+				continue
+			}
+			as, ok := w.constAlts(fr, f0.Cond, 0)
+			if !ok || len(as) == 0 {
+				continue
+			}
+			conds = append(conds, f0.Cond)
+			alts = append(alts, as)
+		}
+	}
+	if len(conds) == 0 || len(conds) > 6 {
+		return false
+	}
+	type combo struct {
+		facts map[string]FactT
+		vals  []bool
+	}
+	// what holds where this frame is entered: combinations that contradict it cannot occur
+	base := map[string]FactT{}
+	if fr.Parent != nil && fr.Call != nil {
+		base = factMap(w.FactsAt(fr.Parent, fr.Call))
+	}
+	combos := []combo{{base, nil}}
+	for i := range conds {
+		var next []combo
+		for _, c := range combos {
+			for _, al := range alts[i] {
+				if al.val.Kind() != constant.Bool {
+					return false
+				}
+				m, feasible := mergeFacts(c.facts, al.facts)
+				if !feasible {
+					continue
+				}
+				if f, has := m["false"]; has && f.Holds {
+					continue // a path the bound constants rule out
+				}
+				if f, has := m["¬true"]; has && !f.Holds {
+					continue
+				}
+				next = append(next, combo{m, append(append([]bool{}, c.vals...), constant.BoolVal(al.val))})
+			}
+		}
+		if len(next) == 0 || len(next) > 128 {
+			return false
+		}
+		combos = next
+	}
+	old := edgeFeasible
+	defer func() { edgeFeasible = old }()
+	seen := map[string]bool{}
+	for _, c := range combos {
+		k := fmt.Sprint(c.vals)
+		if seen[k] {
+			continue
+		}
+		seen[k] = true
+		forced := map[ssa.Value]bool{}
+		for i, cv := range conds {
+			forced[cv] = c.vals[i]
+		}
+		edgeFeasible = func(blk *ssa.BasicBlock, succ int) bool {
+			if ifi, ok := blk.Instrs[len(blk.Instrs)-1].(*ssa.If); ok {
+				for _, f := range expandCond(ifi.Cond, true, ifi) {
+					if fv, has := forced[f.Cond]; has {
+						return (succ == 0) == (fv == f.Holds)
+					}
+				}
+			}
+			if old != nil {
+				return old(blk, succ)
+			}
+			return true
+		}
+		if !mustPass(fr.Fn, pred) {
+			if os.Getenv("DEBUG_COEX") != "" {
+				fmt.Fprintf(os.Stderr, "mustPassPerAlternatives: combination %v of %d flags avoids the sites; facts %s\n", c.vals, len(conds), trunc(fmt.Sprint(sortedKeys(c.facts)), 700))
+			}
 			return false
 		}
 	}
